@@ -53,4 +53,7 @@ def translated : List String := ["SetFeedValue_delta_1(counter,latestHistory)", 
 /-- every rejecting guard of the translated functions, in source order -/
 def guards : List String := ["EditFeed: !found", "EditFeed: msg.Creator != feed.Creator", "EditFeed: err := k.sk.UpdateRequestContext( ctx, requestContextID, providers, msg.ResponseThreshold, msg.ServiceFeeCap, msg.Timeout, msg.RepeatedFrequency, -1, creator, ); err != nil", "Keeper.CreateFeed: _, found := k.GetFeed(ctx, msg.FeedName); found", "Keeper.CreateFeed: requestContextID, err := k.sk.CreateRequestContext( ctx, msg.ServiceName, providers, creator, msg.Input, msg.ServiceFeeCap, msg.Timeout, true, msg.RepeatedFrequency, -1, serviceexported.PAUSED, msg.ResponseThreshold, types.ModuleName, ); err != nil", "Keeper.StartFeed: !found", "Keeper.StartFeed: msg.Creator != feed.Creator", "Keeper.StartFeed: !existed", "Keeper.StartFeed: reqCtx.State == serviceexported.RUNNING", "Keeper.StartFeed: err := k.sk.StartRequestContext(ctx, requestContextID, creator); err != nil", "Keeper.PauseFeed: !found", "Keeper.PauseFeed: msg.Creator != feed.Creator", "Keeper.PauseFeed: !existed", "Keeper.PauseFeed: reqCtx.State != serviceexported.RUNNING", "Keeper.PauseFeed: err := k.sk.PauseRequestContext(ctx, requestContextID, creator); err != nil", "msgServer.CreateFeed: err := m.Keeper.CreateFeed(ctx, msg); err != nil", "msgServer.EditFeed: err := m.Keeper.EditFeed(ctx, msg); err != nil", "msgServer.StartFeed: err := m.Keeper.StartFeed(ctx, msg); err != nil", "msgServer.PauseFeed: err := m.Keeper.PauseFeed(ctx, msg); err != nil"]
 
+/-- every statement of the translated functions executed for its effect, with its nesting depth, in source order -/
+def effects : List String := ["SetFeedValue: d0 k.deleteOldestFeedValue(ctx, feedName, delta+1)", "SetFeedValue: d0 store.Set(types.GetFeedValueKey(feedName, batchCounter), bz)", "EditFeed: d2 k.deleteOldestFeedValue(ctx, feed.FeedName, cnt-expectCnt)", "EditFeed: d1 feed.LatestHistory = msg.LatestHistory", "EditFeed: d1 feed.Description = msg.Description", "EditFeed: d0 k.SetFeed(ctx, feed)", "Keeper.dequeueAndEnqueue: d0 store.Delete(types.GetFeedStateKey(feedName, dequeueState))", "Keeper.dequeueAndEnqueue: d0 store.Set(types.GetFeedStateKey(feedName, enqueueState), bz)", "Keeper.SetFeed: d0 store.Set(types.GetFeedKey(feed.FeedName), bz)", "Keeper.SetFeed: d0 store.Set(types.GetReqCtxIDKey(requestContextID), bz)", "Keeper.deleteOldestFeedValue: d0 iterator.Next()", "Keeper.deleteOldestFeedValue: d1 store.Delete(iterator.Key())", "Keeper.Enqueue: d0 store.Set(types.GetFeedStateKey(feedName, state), bz)", "Keeper.Dequeue: d0 store.Delete(types.GetFeedStateKey(feedName, state))", "Keeper.CreateFeed: d0 k.SetFeed(ctx, types.Feed{ FeedName: msg.FeedName, AggregateFunc: msg.AggregateFunc, ValueJsonPath: msg.ValueJsonPath, LatestHistory: msg.LatestHistory, RequestContextID: requestContextID.String(), Description: msg.Description, Creator: msg.Creator, })", "Keeper.CreateFeed: d0 k.Enqueue(ctx, msg.FeedName, serviceexported.PAUSED)", "Keeper.StartFeed: d0 k.dequeueAndEnqueue(ctx, msg.FeedName, serviceexported.PAUSED, serviceexported.RUNNING)", "Keeper.PauseFeed: d0 k.dequeueAndEnqueue(ctx, msg.FeedName, serviceexported.RUNNING, serviceexported.PAUSED)", "Keeper.HandlerResponse: d0 k.SetFeedValue(ctx, feed.FeedName, reqCtx.BatchCounter, feed.LatestHistory, value)", "Keeper.HandlerStateChanged: d0 k.dequeueAndEnqueue(ctx, feed.FeedName, oldState, reqCtx.State)"]
+
 end Irismod.Gen.PureOracle
